@@ -13,7 +13,11 @@ Next == Len(d) < MaxLen /\ \E t \in Alphabet : d' = Append(d, t)
 DN(strict) == Norm(strict, Simple(d))
 ConsistentInv == \A st \in BOOLEAN : Consistent(DN(st))
 TotalInv == \A st \in BOOLEAN : Verdict(DN(st), "GET", FALSE, 0) \in {"reject", "accept", "unspecified"}
+\* the same definition used as the PREFIX of a group whose only route has the plain path "/a": what registration works on
+\* is the joined, normalised path (Router.Group + appendGroupInfo), and the verdict is the verdict of that path
+GN(strict) == Norm(strict, Norm(strict, d) \o <<"/", "a">>)
 Emit == PrintT(ToJson([def |-> d, verdict |-> Verdict(DN(FALSE), "GET", FALSE, 0), verdict_strict |-> Verdict(DN(TRUE), "GET", FALSE, 0),
+                       verdict_group |-> Verdict(GN(FALSE), "GET", FALSE, 0), verdict_group_strict |-> Verdict(GN(TRUE), "GET", FALSE, 0),
                        why |-> [optional |-> BadOptional(DN(FALSE)), capvar |-> CapturingInVar(DN(FALSE)), unbalanced |-> Unbalanced(DN(FALSE)),
                                 capout |-> CapturingOutsideVar(DN(FALSE))]]))
 
